@@ -195,7 +195,6 @@ def stmt_shard(arg) -> core.Part:
             src = G.to_source(G.with_epilogue(prog, G.POOL2))
             datas = G.data_assignments(G.POOL2, prog)
             datas = [datas[0], datas[-1]] if len(datas) > 1 else datas
-            datas = [G.render_data(d) for d in datas]
         else:
             src = prog
             datas = [{"x": 1}]
@@ -215,8 +214,9 @@ def stmt_shard(arg) -> core.Part:
                         continue
                     p.evals += 1
                     kw = g.env_kwargs(g.DELIMS[d])
+                    rd = G.render_data(data) if G is not None else data
                     o = outcome(lambda: Environment(trim_blocks=settings[0], lstrip_blocks=settings[1], **kw, **extra)
-                                .from_string(s).render(**data))
+                                .from_string(s).render(**rd))
                     outs.append(o if o[0] == "ok" else o[:2])
                 if outs[0][0] == "ok":
                     p.sig(("stmt", outs[0][1]))
@@ -224,11 +224,13 @@ def stmt_shard(arg) -> core.Part:
                     if o is not None and o != outs[0]:
                         p.violation(f"C13/delims-stmt/{d}", {
                             "msg": f"{src!r} renders {outs[0]!r} but {s!r} under delimiter set {d} renders {o!r} "
-                                   f"(trim/lstrip={settings}, data={sorted(k for k in data if k != 'tree')})",
+                                   f"(trim/lstrip={settings}, data={data!r})",
                             "script": "import jinja2\n"
-                                      f"# data keys: {sorted(data)}\n"
-                                      f"print(jinja2.Environment(**{extra!r}).from_string({src!r}))\n"
-                                      f"print(jinja2.Environment(**{g.env_kwargs(g.DELIMS[d])!r}, **{extra!r}).from_string({s!r}))\n",
+                                      + ("from vf import gen_stmt as G\n" f"data = G.render_data({data!r})\n" if G is not None
+                                         else f"data = {data!r}\n")
+                                      + f"kw = dict(trim_blocks={settings[0]}, lstrip_blocks={settings[1]}, **{extra!r})\n"
+                                      f"print(repr(jinja2.Environment(**kw).from_string({src!r}).render(**data)))\n"
+                                      f"print(repr(jinja2.Environment(**kw, **{g.env_kwargs(g.DELIMS[d])!r}).from_string({s!r}).render(**data)))\n",
                         })
         p.sample({"part": "i/program", "default": src, "asp": srcs[1]}, cap=1)
     return p
